@@ -51,6 +51,7 @@ pipe_destroy(void *arg)
 	// away themselves): until the last reference was dropped, somebody
 	// who looked the pipe up by id may have been using them through us
 	// (nni_pipe_getopt falls back to the endpoint's options).
+	NNI_VERIF_PT(NNI_VP_PIPE_REMOVE);
 	nni_pipe_remove(p);
 
 	nni_free(p, p->p_size);
